@@ -58,12 +58,15 @@ class _CmdStub:
 
     class Command:
         calls = []
+        forward = []      # was the decoder handed a ForwardFrame?  (it refuses to wrap anything else in an
+                          # Unknown...Command: a plain Frame that matches no command raises TypeError)
 
         @staticmethod
         def from_frame(f, devicetype=0, dev_inst_map=None):
             v = f.as_integer
             w = len(f)
             _CmdStub.Command.calls.append((v, w, devicetype))
+            _CmdStub.Command.forward.append(isinstance(f, F.ForwardFrame))
             if w == 16 and (v >> 8) == 0xC1:
                 return gg.EnableDeviceType(v & 0xFF)
             return Decoded(v, w, devicetype)
@@ -73,13 +76,16 @@ class _patched:
     """Patch dali.driver.serial.command for the duration of one harness run
     (both modes) and proxy the enums in symbolic mode."""
 
-    def __init__(self, ctx):
+    def __init__(self, ctx, stub=True):
         self.ctx = ctx
+        self.stub = stub
 
     def __enter__(self):
         self.saved = S.command
-        S.command = _CmdStub
+        if self.stub:
+            S.command = _CmdStub
         _CmdStub.Command.calls = []
+        _CmdStub.Command.forward = []
         self.enums = []
         if self.ctx.symbolic:
             from symx import shims
@@ -398,8 +404,43 @@ def h_sci_step(ctx, state):
         return "%s->%s" % (st_enum.name, p._rx_state.name)
 
 
+def h_observed_real(ctx, which, bits):
+    """A well-formed 'frame observed on the bus' message carrying any 16- or 24-bit frame, through the
+    receiver with the library's real decoder behind it (no stub): exactly one command carrying exactly those
+    bits is delivered - also when the bits match no known command - and the receiver returns to idle."""
+    from harness import rigs
+    with _patched(ctx, stub=False):
+        p = S.DriverLubaRs232.LubaProtocol() if which == "luba" else S.DriverSCIRS232.SCIRS232Protocol()
+        child = S.DistributorQueue(p.queue_rx_dali)
+        x = ctx.fresh("x", 0, (1 << bits) - 1)
+        fb = [(x >> (8 * i)) & 0xFF for i in reversed(range(bits // 8))]
+        if which == "luba":
+            pkt = rigs.luba_event_rx(fb)
+        else:
+            pkt = rigs.sci_frame(0x13 if bits == 16 else 0x18, fb[0] if bits == 24 else 0, fb[-2], fb[-1])
+        st, r = call(p.data_received, pkt)
+        tag = "%s-observed-real" % which
+        if st == "exc":
+            ctx.fail("receiver raised %r" % (r,), key=tag + "/raised:" + type(r).__name__)
+            return "raised"
+        got = []
+        while child.qsize():
+            got.append(child.get_nowait())
+        ctx.prove(len(got) == 1, "%d commands delivered for one observed frame" % len(got), key=tag + "/count")
+        if len(got) == 1:
+            g = got[0]
+            ctx.prove(isinstance(g, C.Command) and len(g.frame) == bits and E.eq(g.frame.as_integer, x),
+                      "delivered command does not carry the observed bits", key=tag + "/bits")
+        ctx.prove(p.rx_state == p.ReadState.WAIT_START if which == "luba" else True,
+                  "receiver not idle after the frame", key=tag + "/not-idle")
+        return type(got[0]).__name__ if got else "nothing"
+
+
 def cases(tier):
     cs = []
+    for which in ("luba", "sci"):
+        for bits in (16, 24):
+            cs.append(Case("%s-observed-real-%d" % (which, bits), h_observed_real, {"which": which, "bits": bits}))
     for s in range(5):
         cs.append(Case("luba-step-%d" % s, h_luba_step, {"state": s}, width=256 if s == 4 else 64))
         cs.append(Case("sci-step-%d" % s, h_sci_step, {"state": s}))
